@@ -175,7 +175,7 @@ def gen(rnd, *, core=False, res_choices=(60, 60, 30, 15), subslot=True, alap=Non
         leaves=True, nested=True, pins=True, ntasks=(2, 8), aligned=True, gaps=True, onstart=True, alts=False,
         crossmid=True, nres=(1, 4), special_start=0.3, weeks=None, days=None, tasklimits=False, odd_zones=False,
         effs=None, max_depth=3, overrun=False, milestones=0.1, single_day_leaves=True, groups=True, prios=0.4,
-        contention=False, equal_team_eff=True):
+        contention=False, equal_team_eff=True, group_p=0.3):
     m = {}
     res = rnd.choice(res_choices)
     m["res"] = res
@@ -227,7 +227,7 @@ def gen(rnd, *, core=False, res_choices=(60, 60, 30, 15), subslot=True, alap=Non
         resources.append(r)
     m["resources"] = resources
     m["groups"] = []
-    if groups and n_res >= 2 and rnd.random() < 0.3:
+    if groups and n_res >= 2 and rnd.random() < group_p:
         g = {"id": "grp", "parent": None}
         if limits and rnd.random() < 0.5:
             g["limits"] = {rnd.choice(["dailymax", "weeklymax"]): rnd.choice([2, 4, 6, 8])}
@@ -235,6 +235,24 @@ def gen(rnd, *, core=False, res_choices=(60, 60, 30, 15), subslot=True, alap=Non
         members = resources if rnd.random() < 0.6 else resources[:max(1, n_res - 1)]
         for r in members:
             r["group"] = "grp"
+        if rnd.random() < 0.45:
+            # a second level: an outer group around 'grp' (and possibly around resources that are not in 'grp'),
+            # optionally a sibling sub-group; limits on both levels so that the outer one can be the binding one
+            org = {"id": "org", "parent": None}
+            if limits and rnd.random() < 0.7:
+                org["limits"] = {rnd.choice(["dailymax", "weeklymax"]): rnd.choice([2, 3, 4, 6])}
+            m["groups"].insert(0, org)
+            g["parent"] = "org"
+            if limits and "limits" not in g and rnd.random() < 0.5:
+                g["limits"] = {rnd.choice(["dailymax", "weeklymax"]): rnd.choice([2, 4, 6, 8])}
+            outside = [r for r in resources if not r.get("group")]
+            if outside and rnd.random() < 0.6:
+                sib = {"id": "sib", "parent": "org"}
+                if limits and rnd.random() < 0.6:
+                    sib["limits"] = {rnd.choice(["dailymax", "weeklymax"]): rnd.choice([2, 4, 6])}
+                m["groups"].append(sib)
+                for r in outside:
+                    r["group"] = "sib" if rnd.random() < 0.7 else "org"
     if leaves and rnd.random() < 0.3:
         vs = []
         for _ in range(rnd.randint(1, 2)):
